@@ -135,6 +135,7 @@ type Sim struct {
 	ResetupOn        atomic.Bool
 	ResetupTime      time.Duration
 	PumpHook         func() // called once per pump step outside all mutexes
+	HungAtStop       bool   // some goroutine of the simulation did not return within two virtual minutes of Stop
 	PumpHookInternal func()
 }
 
@@ -712,7 +713,15 @@ func (s *Sim) Stop() {
 	for _, in := range s.AllInsts {
 		s.W.KillCaller(in.Caller())
 	}
-	s.wg.Wait()
+	// a daemon whose loop never comes back (a goroutine parked for good inside the code under test) must not hang the
+	// tear-down: after two virtual minutes the scenario goes on, and what is left shows up in the bubble's leak list
+	done := make(chan struct{})
+	go func() { s.wg.Wait(); close(done) }()
+	select {
+	case <-done:
+	case <-time.After(2 * time.Minute):
+		s.HungAtStop = true
+	}
 	s.ZK.Shutdown()
 	// fake servers may still sit in the bounded sleep of a delayed reply (at most 7 s): let them run into the closed
 	// connection, so that what the tear-down lists afterwards are goroutines that would never end
